@@ -178,7 +178,8 @@ Definition check_field_axes (c : list centry) (sh : option (list Z)) (axs : list
 
 (* Constructs._domain_axis_spanned_by *)
 Definition spanned_by_construct (s : cstate) (a : key) : bool :=
-  existsb (fun e => memb a (snd e)) (caxes s).
+  existsb (fun e => match assoc (fst e) (caxes s) with
+                    | Some axs => memb a axs | None => false end) (caxes s).
 
 Definition spanned_by_field (s : cstate) (a : key) : bool :=
   match faxes s with Some ax => memb a ax | None => false end.
@@ -853,7 +854,9 @@ Definition describe_ok (s : cstate) : bool :=
   | Some ax => match axes_sizes (cons s) ax with Some _ => true | None => false end
   | None => true
   end &&
-  forallb (fun ka => match axes_sizes (cons s) (snd ka) with Some _ => true | None => false end)
+  forallb (fun ka => match assoc (fst ka) (caxes s) with
+                     | Some axs => match axes_sizes (cons s) axs with Some _ => true | None => false end
+                     | None => true end)
           (caxes s).
 
 (* as it stood at the pinned commit: data_axes()[key] for every field
